@@ -250,7 +250,7 @@ async fn apply_remote_deletes(
             }
             if let Ok(mut child) = tokio::process::Command::new("ssh")
                 .arg(host)
-                .arg("xargs -0 rm -f --")
+                .arg(super::transfer::guarded_xargs("rm -f --", list.len()))
                 .stdin(std::process::Stdio::piped())
                 .stdout(std::process::Stdio::null())
                 .stderr(std::process::Stdio::piped())
